@@ -3,6 +3,14 @@
 //   kind 0 StringBuilder(), 1 StringBuilder(std::string&), 2 (buf, cap, Fixed), 3 (buf, cap, Dynamic)
 // After the constructor and after every operation one record is printed:
 //   exc size bytes[0..size) c_str()[size] maxSize(-1 = unbounded) errno==ERANGE canaries-intact
+// Every case is run TWICE on fresh builders:
+//   pass 1 ("clean"):  errno = 0 before the constructor and before every operation; the errno field says whether
+//                      THIS operation signalled a truncation.  These records are what the Coq model predicts.
+//   marker STALE_MARK
+//   pass 2 ("stale"):  errno = ERANGE before the constructor and before every operation - the state a caller is in
+//                      who never resets errno after an earlier, legitimately signalled truncation (of this or of any
+//                      other builder).  A correct builder's text never depends on that; the errno field of these
+//                      records carries no information (printed, ignored by props/C17.py).
 // The caller's array lies between two canary blocks inside one allocation (a write next to the array is
 // observed, not just crashed on); everything runs under ASan/UBSan as well.
 #include "common.h"
@@ -11,6 +19,7 @@
 using Potassco::StringBuilder;
 static const size_t GUARD = 32;
 static const unsigned char CANARY = 0x5a, FILL = 0xaa;
+static const ll STALE_MARK = -99;
 
 struct Arena {
 	std::vector<unsigned char> mem; size_t cap;
@@ -38,9 +47,10 @@ static void record(Obs& o, int exc, const StringBuilder& b, bool er, const Arena
 	o.add(ok ? 1 : 0);
 }
 
-int main() {
-	Case c; Obs o;
-	while (readCase(c)) {
+static void runCase(Case& c, Obs& o, bool stale) {
+	c.p = 0;
+	const int e0 = stale ? ERANGE : 0;   // errno as the caller left it
+	{
 		ll kind = c.next();
 		ll capl = c.next(); size_t cap = capl > 0 ? (size_t)capl : 0;
 		size_t ilen = (size_t)c.next();
@@ -48,7 +58,7 @@ int main() {
 		Arena arena(kind >= 2 ? cap : 0);
 		std::string ext = ini;
 		StringBuilder* bp = 0;
-		errno = 0;
+		errno = e0;
 		if      (kind == 0) bp = new StringBuilder();
 		else if (kind == 1) bp = new StringBuilder(ext);
 		else if (kind == 2) bp = new StringBuilder(arena.buf(), cap, StringBuilder::Fixed);
@@ -59,7 +69,7 @@ int main() {
 		while (c.more()) {
 			ll op = c.next();
 			int exc = 0; bool er = false;
-			errno = 0;
+			errno = e0;
 			try {
 				if (op == 1) { size_t n = (size_t)c.next(); std::string d = c.bytes(n); b.append(d.data(), d.size()); }
 				else if (op == 2) { size_t n = (size_t)c.next(); std::string d = c.bytes(n); b.append(d.c_str()); }
@@ -103,6 +113,15 @@ int main() {
 			record(o, exc, b, er, arena, extp);
 		}
 		delete bp;
+	}
+}
+
+int main() {
+	Case c; Obs o;
+	while (readCase(c)) {
+		runCase(c, o, false);
+		o.add(STALE_MARK);
+		runCase(c, o, true);
 		o.flush();
 	}
 	return 0;
